@@ -32,7 +32,8 @@ type site struct {
 	Line int    `json:"line"`
 	Func string `json:"func"`
 	Kind string `json:"kind"`
-	Out  int    `json:"out"` // line of the zzsim.Y call in the rewritten file
+	Out  int    `json:"out"`            // line of the zzsim.Y call in the rewritten file
+	Sync bool   `json:"sync,omitempty"` // next to a statement that uses a sync / sync/atomic primitive
 }
 
 type report struct {
@@ -48,6 +49,7 @@ type report struct {
 	Timers      []string          `json:"timers"`         // real-clock waits the simulator does not own
 	CLI         []string          `json:"cli_redirected"` // process-global facilities redirected in cmd/php-parser
 	CLIMain     bool              `json:"cli_main"`       // func main found and exported as ZZMain
+	SyncLib     int               `json:"sync_lib"`       // library files importing sync or sync/atomic
 }
 
 var noKnob bool
@@ -62,12 +64,45 @@ type inst struct {
 	done     map[*ast.BlockStmt]bool
 	brkLabel map[string]bool
 	used     bool
+	syncFile bool // the file imports sync or sync/atomic
+	markSync bool // the site being created is next to a sync-using statement
+}
+
+// names of methods / functions through which sync, sync/atomic and pool-like
+// objects are used: a yield site next to such a statement belongs to the site
+// class "sync"
+var syncNames = map[string]bool{
+	"Lock": true, "Unlock": true, "RLock": true, "RUnlock": true, "TryLock": true, "TryRLock": true,
+	"Load": true, "Store": true, "Swap": true, "CompareAndSwap": true, "Add": true, "And": true, "Or": true,
+	"LoadOrStore": true, "LoadAndDelete": true, "Delete": true, "CompareAndDelete": true, "Range": true,
+	"Get": true, "Put": true, "Do": true, "Wait": true, "Done": true, "Signal": true, "Broadcast": true,
+}
+
+// usesSync: does the statement itself (not the blocks nested in it) call one of syncNames?
+func usesSync(s ast.Stmt) bool {
+	found := false
+	ast.Inspect(s, func(n ast.Node) bool {
+		switch x := n.(type) {
+		case *ast.BlockStmt, *ast.FuncLit:
+			return false
+		case *ast.CallExpr:
+			switch f := x.Fun.(type) {
+			case *ast.SelectorExpr:
+				name := f.Sel.Name
+				if syncNames[name] || strings.HasPrefix(name, "Load") || strings.HasPrefix(name, "Store") || strings.HasPrefix(name, "Add") || strings.HasPrefix(name, "Swap") || strings.HasPrefix(name, "CompareAndSwap") {
+					found = true
+				}
+			}
+		}
+		return !found
+	})
+	return found
 }
 
 func (in *inst) ycall(pos token.Pos, kind string) ast.Stmt {
 	id := len(rep.Sites) + 1
 	p := in.fset.Position(pos)
-	rep.Sites = append(rep.Sites, site{ID: id, File: in.rel, Line: p.Line, Func: in.curFunc, Kind: kind})
+	rep.Sites = append(rep.Sites, site{ID: id, File: in.rel, Line: p.Line, Func: in.curFunc, Kind: kind, Sync: in.markSync})
 	in.used = true
 	return &ast.ExprStmt{X: &ast.CallExpr{
 		Fun:  &ast.SelectorExpr{X: ast.NewIdent("zzsim"), Sel: ast.NewIdent("Y")},
@@ -81,12 +116,16 @@ func (in *inst) list(list []ast.Stmt, startKind string) []ast.Stmt {
 		pos := token.NoPos
 		if len(list) > 0 {
 			pos = list[0].Pos()
+			in.markSync = in.syncFile && usesSync(list[0])
 		}
 		out = append(out, in.ycall(pos, startKind))
+		in.markSync = false
 	}
 	for i, s := range list {
 		if in.every && i > 0 {
+			in.markSync = in.syncFile && (usesSync(s) || usesSync(list[i-1]))
 			out = append(out, in.ycall(s.Pos(), "stmt"))
+			in.markSync = false
 		}
 		pre, post := in.chanWait(s)
 		out = append(out, pre...)
@@ -356,6 +395,12 @@ func processFile(root, path string, isCmd bool) error {
 
 	// "sync" -> zzsimsync ; record chan ops and go statements
 	for _, im := range f.Imports {
+		if im.Path.Value == `"sync"` || im.Path.Value == `"sync/atomic"` {
+			in.syncFile = true
+			if !isCmd {
+				rep.SyncLib++
+			}
+		}
 		if im.Path.Value == `"sync"` {
 			im.Path.Value = strconv.Quote(syncPkg)
 			if im.Name == nil {
@@ -631,9 +676,12 @@ func generate(root, dir string) error {
 	// ---- site classes
 	b.Reset()
 	b.WriteString("// Code generated by verif-instrument. DO NOT EDIT.\n\npackage main\n\nimport \"github.com/z7zmey/php-parser/pkg/zzsim\"\n\nvar siteClassRanges = map[string][][2]int{\n")
-	for _, c := range siteClasses {
+	for _, c := range append(siteClasses, [3]string{"sync", "", ""}) {
 		var ranges [][2]int
 		for _, s := range rep.Sites {
+			if c[0] == "sync" && !s.Sync {
+				continue
+			}
 			if strings.Contains("/"+s.File, c[1]) && strings.Contains(s.Func, c[2]) {
 				if n := len(ranges); n > 0 && ranges[n-1][1] == s.ID-1 {
 					ranges[n-1][1] = s.ID
@@ -648,7 +696,7 @@ func generate(root, dir string) error {
 		}
 		b.WriteString("},\n")
 	}
-	b.WriteString("}\n\n// markSites marks the sites of one class for the site-biased scheduler.\nfunc markSites(class string) {\n\tfor i := range zzsim.SiteMark {\n\t\tzzsim.SiteMark[i] = 0\n\t}\n\tfor _, r := range siteClassRanges[class] {\n\t\tfor i := r[0]; i <= r[1] && i < zzsim.MaxSites; i++ {\n\t\t\tzzsim.SiteMark[i] = 1\n\t\t}\n\t}\n}\n")
+	b.WriteString("}\n\n// markSites marks the sites of one class for the site-biased scheduler.\nfunc markSites(class string) {\n\tfor i := range zzsim.SiteMark {\n\t\tzzsim.SiteMark[i] = 0\n\t}\n\tfor _, r := range siteClassRanges[class] {\n\t\tfor i := r[0]; i <= r[1] && i < zzsim.MaxSites; i++ {\n\t\t\tzzsim.SiteMark[i] = 1\n\t\t}\n\t}\n\tif class == \"sync\" {\n\t\tzzsim.SiteMark[zzsim.SiteSyncRel], zzsim.SiteMark[zzsim.SiteSyncAcq] = 1, 1\n\t}\n}\n")
 	fmt.Fprintf(&b, "\nconst totalSites = %d\n\n// the tree registers finalizers: automatic GC is switched off, forced GCs place them\nconst usesFinalizers = %v\n", len(rep.Sites), len(rep.Finalizers) > 0)
 	return os.WriteFile(filepath.Join(dir, "sites_gen.go"), b.Bytes(), 0644)
 }
@@ -657,10 +705,11 @@ func generate(root, dir string) error {
 
 // what replaces process-global facilities: import path -> selector -> name in zzsimos
 var cmdRedirect = map[string]map[string]string{
-	"os":      {"Exit": "Exit", "Stdout": "Stdout", "Stderr": "Stderr", "Args": "Args"},
-	"fmt":     {"Print": "Print", "Println": "Println", "Printf": "Printf"},
-	"log":     {"Fatal": "Fatal", "Fatalf": "Fatalf", "Fatalln": "Fatalln", "Print": "LogPrint", "Printf": "LogPrintf", "Println": "LogPrintln", "Panic": "Panic", "Panicf": "Panicf"},
-	"runtime": {"GOMAXPROCS": "GOMAXPROCS", "NumCPU": "NumCPU"},
+	"os":        {"Exit": "Exit", "Stdout": "Stdout", "Stderr": "Stderr", "Args": "Args", "WriteFile": "WriteFile", "ReadFile": "ReadFile"},
+	"io/ioutil": {"WriteFile": "WriteFile", "ReadFile": "ReadFile"},
+	"fmt":       {"Print": "Print", "Println": "Println", "Printf": "Printf"},
+	"log":       {"Fatal": "Fatal", "Fatalf": "Fatalf", "Fatalln": "Fatalln", "Print": "LogPrint", "Printf": "LogPrintf", "Println": "LogPrintln", "Panic": "Panic", "Panicf": "Panicf"},
+	"runtime":   {"GOMAXPROCS": "GOMAXPROCS", "NumCPU": "NumCPU"},
 }
 
 func importName(im *ast.ImportSpec) string {
